@@ -1,41 +1,37 @@
-import IodineModel.Hex
-import IodineModel.Codec.Inst
+import IodineModel.Drv.Codec
+import IodineModel.Drv.Encoding
+import IodineModel.Drv.Users
+import IodineModel.Drv.Login
+import IodineModel.Drv.FwQuery
 /-
 Line-protocol driver: one operation per input line, one result line per operation.
 The C harnesses (harness/*.c) answer the same lines by calling the real code; the
-check diffs the two streams.
+checks diff the two streams.  Stateless handlers are tried first, then the stateful ones.
 -/
-open Iodine Iodine.Hex
+open Iodine
 
-def step (line : String) : String :=
-  match line.trimAscii.toString.splitOn " " with
-  | ["enc", cn, cap, hx] =>
-    match Codec.byName cn, cap.toNat?, ofHex hx with
-    | some c, some cap, some d =>
-      let r := Codec.enc c cap d
-      s!"r={r.chars.length} used={r.used} out={toHex r.chars}"
-    | _, _, _ => "bad-op"
-  | ["encdec", cn, cap, hx] =>
-    match Codec.byName cn, cap.toNat?, ofHex hx with
-    | some c, some cap, some d =>
-      let r := Codec.enc c cap d
-      let back := Codec.dec c (d.length + 8) r.chars.length r.chars
-      s!"r={r.chars.length} used={r.used} out={toHex r.chars} dec={toHex back}"
-    | _, _, _ => "bad-op"
-  | ["dec", cn, cap, slen, hx] =>
-    match Codec.byName cn, cap.toNat?, slen.toNat?, ofHex hx with
-    | some c, some cap, some slen, some s =>
-      let r := Codec.dec c cap slen s
-      s!"r={r.length} out={toHex r}"
-    | _, _, _, _ => "bad-op"
-  | _ => "bad-op"
+structure DrvState where
+  fw : FwQuery.Fw := FwQuery.init
 
-partial def loop (h : IO.FS.Stream) (out : IO.FS.Stream) : IO Unit := do
+def firstSome (fs : List (List String → Option String)) (toks : List String) : Option String :=
+  fs.findSome? (fun f => f toks)
+
+def step (st : DrvState) (line : String) : DrvState × String :=
+  let toks := (line.trimAscii.toString.splitOn " ").filter (fun t => t ≠ "")
+  match firstSome [Drv.Codec.handle, Drv.Encoding.handle, Drv.Users.handle, Drv.Login.handle] toks with
+  | some r => (st, r)
+  | none =>
+    match Drv.FwQuery.handle st.fw toks with
+    | some (fw, r) => ({ st with fw := fw }, r)
+    | none => (st, "bad-op")
+
+partial def loop (h : IO.FS.Stream) (out : IO.FS.Stream) (st : DrvState) : IO Unit := do
   let line ← h.getLine
   if line.isEmpty then return ()
-  out.putStrLn (step line)
-  loop h out
+  let (st', r) := step st line
+  out.putStrLn r
+  loop h out st'
 
 def main : IO Unit := do
   let out ← IO.getStdout
-  loop (← IO.getStdin) out
+  loop (← IO.getStdin) out {}
